@@ -33,6 +33,7 @@ type qop struct {
 	ret int64  // result: -1 not returned; for Recv item => 1000+v ; error codes 0 nil 1 EOF 2 deadline >=3 custom
 	c   int64  // call stamp
 	r   int64  // return stamp
+	e   int64  // controlled runs: position of the call's last atomic action in the recorded step order (0 = unknown)
 }
 
 func (o qop) coqOp() string {
@@ -395,11 +396,15 @@ func judge(p program, leftoverBeforeCleanup []uint64, leaked bool, goBefore, goA
 	// "Send after Close -> EOF": no Send may report success for an item queued after Close completed.
 	// A Send issued after a Close had returned nil must fail; when the stamps are totally ordered
 	// with the effects (controlled runs) a Send may not even return nil after Close returned.
-	var closeRet int64 = -1
+	// (Return stamps are taken after the call returned; in a controlled run a call released by the
+	// granted thread's action — Close's wait for the mutex — returns concurrently with the granted
+	// call, so there the order of the calls' LAST ATOMIC ACTIONS in the recorded schedule is used.)
+	var closeRet, closeEff int64 = -1, 0
 	for _, t := range p.progs {
 		for _, o := range t {
 			if o.k == kClose && o.ret == 0 && o.r > 0 && (closeRet < 0 || o.r < closeRet) {
 				closeRet = o.r
+				closeEff = o.e
 			}
 		}
 	}
@@ -412,12 +417,13 @@ func judge(p program, leftoverBeforeCleanup []uint64, leaked bool, goBefore, goA
 				if o.c > closeRet {
 					return verdict{false, "C17:send-succeeded-after-close", fmt.Sprintf("T%d %s was issued after Close had returned nil and reported success", i, o)}
 				}
-				if p.seq && o.r > closeRet {
+				if p.seq && closeEff > 0 && o.e > closeEff {
 					return verdict{false, "C17:send-succeeded-after-close", fmt.Sprintf("T%d %s returned nil after Close had completed: its item was queued on the closed queue (Send after Close must give io.EOF)", i, o)}
 				}
 			}
 		}
 	}
+	_ = closeEff
 	// at most once, only sent items, per sender/receiver order, errors are real errors
 	got := map[uint64]int{}
 	var firstEOFRet int64 = -1
@@ -489,9 +495,9 @@ func judge(p program, leftoverBeforeCleanup []uint64, leaked bool, goBefore, goA
 // ---------------------------------------------------------------- controlled runs
 
 var pointCode = map[string]int{
-	"dc.recv.poll": 1, "dc.recv.closed": 2, "dc.recv.done": 3, "dc.recv.pollerr": 4, "dc.recv.select": 5, "dc.recv.err": 6, "dc.recv.repoll": 7,
+	"dc.recv.poll": 1, "dc.recv.closed": 2, "dc.recv.done": 3, "dc.recv.pollerr": 4, "dc.recv.select": 5, "dc.recv.err": 6, "dc.recv.repoll": 7, "dc.recv.barrier": 8,
 	"dc.send.lock": 10, "dc.send.closed": 11, "dc.send.done": 12, "dc.send.pollerr": 13, "dc.send.select": 14, "dc.send.err": 15,
-	"dc.close.lock": 20, "dc.close.closed": 21, "dc.close.store": 22, "dc.close.cancel": 23,
+	"dc.close.cas": 20, "dc.close.cancel": 23, "dc.close.wait": 24,
 	"dc.setdl.closed": 30, "dc.setdl.set": 31, "dc.setdl.recheck": 32, "dc.setdl.recancel": 33,
 	"dc.cancel.closed": 40, "dc.cancel.cancel": 41,
 }
@@ -550,6 +556,19 @@ func runControlled(class string, p0 program, script []int, r *hv.Rand) {
 	// snapshot results before cleanup
 	p.seq = true
 	snap := p.snapshot()
+	// position of every returned call's last atomic action in the step order (granted action first,
+	// then the actions it released): a step whose successor is the first point of a call, or none
+	{
+		done := make([]int, n)
+		for k, s := range steps {
+			if s.next == "" || pointCode[s.next]%10 == 0 || s.next == "dc.recv.poll" {
+				if j := done[s.th]; j < len(snap.progs[s.th]) && snap.progs[s.th][j].ret >= 0 {
+					snap.progs[s.th][j].e = int64(k + 1)
+				}
+				done[s.th]++
+			}
+		}
+	}
 	c.release()
 	common.SetVerifYield(nil)
 	leftover, leaked := cleanup(d, &wg)
@@ -880,8 +899,11 @@ func exploreSmall(r *hv.Rand) {
 // {Send, Close, Recv, Recv} on a queue with free capacity: the sender is taken to its last yield
 // point (dc.send.select: closed flag read, deadline channel fetched and polled), then Close runs to
 // completion, a Recv reports end of stream, and only then the sender and the second Recv continue.
-// In the code as is the sender holds the queue mutex from its first action on, so Close waits and
-// the scripted prefix degenerates to Send; Close; Recv; Recv.  Further schedules are sampled.
+// The sender holds the queue mutex from its first action on; Close publishes closed and cancels
+// without the mutex and then waits for it, and a Recv that is about to report end of stream waits
+// for it too (the barrier), so the script parks Close and the Recv behind the sender, whose select
+// then has both cases ready (the Go runtime picks; the model replays the recorded choice).
+// Further schedules are sampled.
 func exploreSendClose(r *hv.Rand) {
 	for _, cp := range []int{1, 2, 4} {
 		mkp := func() program {
